@@ -861,6 +861,67 @@ def rule_enclosing_ignored(chk, prog):
     (r.bad if bad else r.ok)("firstBlocker", fn.loc(blocks["j"]), bad or "")
 
 
+def rule_hyperedge_foreign_points(chk, prog):
+    from ..rules.guards import path_condition, atoms
+    r = chk.rule("HYPEREDGE-AVOIDS-FOREIGN-POINTS", "MinimumTerminalSpanningTree::getOrthogonalEdgesFromVertex: an edge of the orthogonal visibility graph "
+                 "to a connector end point / connection pin vertex (`id.isConnPt()`), which may lie inside a shape, is offered to the spanning-tree "
+                 "search only when that vertex is one of the hyperedge's own terminals or the search stands on a terminal's dummy pin vertex "
+                 "(the partner-copy edge aside): every push onto the edge list is reached only past a test that names isConnPt() together with "
+                 "the terminal sets", floor=2)
+    fn = prog.fn("Avoid::MinimumTerminalSpanningTree::getOrthogonalEdgesFromVertex")
+    pushes = [c for c in calls(fn) if str(c.get("cname", "")).endswith("::push_back") and call_object(c) is not None and norm(call_object(c)) == "edgeList"]
+    if len(pushes) < 3:
+        raise AnalysisBroken("getOrthogonalEdgesFromVertex: pushes onto the edge list not found")
+    for c in pushes:
+        pc = path_condition(fn, c, inline=False, early=True)
+        ats = atoms(pc)
+        own = [a for a in ats if "orthogonalPartner(" in a and "==" in a]
+        if own and any(entails(pc, ("atom", a)) for a in own):
+            continue                  # the dimension-change partner copy of the vertex the search stands on: not a foreign point
+        r.count()
+        a_conn = [a for a in ats if a.endswith(".isConnPt()")]
+        a_dummy = [a for a in ats if a.endswith(".isDummyPinHelper()")]
+        a_find = [a for a in ats if "erminals.find(" in a and "==" in a]
+        want = ("const", False)
+        for a in a_conn[:1]:
+            want = ("or", want, ("not", ("atom", a)))
+        for a in a_dummy:
+            want = ("or", want, ("atom", a))
+        for a in a_find:
+            want = ("or", want, ("not", ("atom", a)))
+        ok = bool(a_conn) and bool(a_find) and entails(pc, want)
+        (r.ok if ok else r.bad)("edge offered at line %s" % c.get("l"), fn.loc(c), "" if ok else
+                                "an edge is offered to the search without the test that keeps it from leading through a connector end point / pin that "
+                                "is not a terminal of this hyperedge")
+
+
+def rule_hyperedge_segments_all(chk, prog):
+    r = chk.rule("HYPEREDGE-SEGMENTS-ALL", "HyperedgeImprover::buildHyperedgeSegments collects the shift segments of EVERY hyperedge tree into "
+                 "m_all_shift_segments (buildOrthogonalChannelInfo gives only the segments in that list their obstacle limits; the others keep "
+                 "+-CHANNEL_MAX and are shifted through shapes): inside the loop over the tree roots the list is only added to "
+                 "(insert / push_back), never assigned, cleared or swapped, and no iteration can end without the addition", floor=1)
+    fn = prog.fn("Avoid::HyperedgeImprover::buildHyperedgeSegments")
+    g = CFG(fn)
+    loops = [n for n in fn.nodes() if n.get("k") in ("ForStmt", "CXXForRangeStmt") and "m_hyperedge_tree_roots" in (norm(n.get("init")) + norm(n.get("cond")) + norm(n.get("range")))]
+    if not loops:
+        raise AnalysisBroken("buildHyperedgeSegments: loop over the hyperedge tree roots not found")
+    lp = loops[0]
+    uses = [c for c in walk(lp["body"]) if c.get("k") in ("CXXMemberCallExpr", "CXXOperatorCallExpr") and call_object(c) is not None
+            and norm(call_object(c)) == "m_all_shift_segments"]
+    adds = [c for c in uses if re.search(r"::(insert|push_back|emplace_back|splice|merge)(<|$)", str(c.get("cname", "")))]
+    other = [c for c in uses if c not in adds and not re.search(r"::(begin|end|size|empty|cbegin|cend)$", str(c.get("cname", "")))]
+    r.count()
+    bad = None
+    if other:
+        bad = "inside the loop over the hyperedge trees m_all_shift_segments is subjected to %s: the segments of the trees handled before are dropped" % (
+            re.sub(r"<.*$", "", str(other[0].get("cname")).split("(")[0]).split("::")[-1])
+    elif not adds:
+        bad = "the segments of a hyperedge tree are no longer added to m_all_shift_segments"
+    elif g.iteration_can_skip(lp, [c["id"] for c in adds]) is not None:
+        bad = "an iteration over a hyperedge tree can end without adding its segments to m_all_shift_segments"
+    (r.bad if bad else r.ok)("segments of every tree collected", fn.loc((other or adds or [lp])[0]), bad or "")
+
+
 def rule_fixed_route_cleared(chk, prog):
     from ..rules.guards import path_condition, atoms
     r = chk.rule("FIXED-ROUTE-CLEARED", "while a connector has a fixed route ConnRef::updateEndPoint returns before computing visibility for its end "
@@ -897,6 +958,10 @@ def rule_fixed_route_cleared(chk, prog):
 def run(chk):
     prog = chk.load()
     chk.guard(rule_fixed_route_cleared, chk, prog)
+    chk.guard(rule_hyperedge_segments_all, chk, prog)
+    chk.guard(rule_hyperedge_foreign_points, chk, prog)
+    from .c10 import rule_fixed_stays
+    chk.guard(rule_fixed_stays, chk, prog)           # nudging keeps every written position inside the segment's channel (both passes)
     chk.guard(rule_callers, chk, prog)
     chk.guard(rule_vis_guard, chk, prog)
     chk.guard(rule_blocking_scan, chk, prog)
